@@ -336,3 +336,9 @@ def gbc_area_of(packet):
 def n_ls_requests():
     """location-service lookups started (calls of gn_ls_request) during this operation"""
     return len(ghost("ls_requests"))
+
+
+def cbf_key_of(packet):
+    """(source GN address, sequence number) of a received GBC packet (extended header first): the key of its CBF entry"""
+    h = GBCExtendedHeader.decode(packet[0:44])
+    return (h.so_pv.gn_addr, h.sn)
